@@ -371,6 +371,7 @@ func dutyTypeValid(t int32) bool { return t > 0 && t < 14 }
 type expect struct {
 	mustReject bool   // a signed field was altered without re-signing by the named member
 	what       string // description for the violation text
+	just       bool   // the altered message is a justification
 }
 
 func coreViewStr(in *interner, m qmsg) string {
@@ -425,7 +426,7 @@ func (e *episode) doMsg(run *hx.Run, ctxDone bool, raw []byte, ex *expect) {
 		ctx, cancel = context.WithCancel(ctx)
 		cancel()
 	} else if duty != nil && lenBefore >= recvCap {
-		ctx, cancel = context.WithTimeout(ctx, 60*time.Millisecond) // a full buffer blocks until the receive deadline
+		ctx, cancel = context.WithTimeout(ctx, 250*time.Millisecond) // a full buffer blocks until the receive deadline
 	}
 	err := e.cons.HandleVerif(ctx, "verif-peer", pm)
 	cancel()
@@ -463,13 +464,17 @@ func (e *episode) doMsg(run *hx.Run, ctxDone bool, raw []byte, ex *expect) {
 		run.Violate("qbftwire:cancelled_ctx_accepted", "accepted with a cancelled receive context")
 	}
 	if ex != nil && ex.mustReject {
-		run.Violate("qbftwire:tampered_accepted", "accepted after altering a signed field without re-signing: "+ex.what)
+		sig := "qbftwire:tampered_accepted"
+		if ex.just {
+			sig = "qbftwire:unsigned_justification_accepted"
+		}
+		run.Violate(sig, "accepted after altering a signed field without re-signing by the named member: "+ex.what)
 	}
 	for i, ci := range d.cores {
 		m := ci.msg
 		if !typeValid(m.GetType()) || m.GetDuty() == nil || !dutyTypeValid(m.GetDuty().GetType()) || m.GetRound() <= 0 || m.GetPreparedRound() < 0 ||
 			m.GetPeerIdx() < 0 || m.GetPeerIdx() >= int64(e.n) {
-			run.Violate("qbftwire:malformed_accepted", fmt.Sprintf("accepted with malformed core %d: %v", i, m))
+			run.Violate("qbftwire:malformed_accepted", fmt.Sprintf("accepted with malformed core %d: type=%d duty=%v peer=%d round=%d prepared_round=%d", i, m.GetType(), m.GetDuty(), m.GetPeerIdx(), m.GetRound(), m.GetPreparedRound()))
 		}
 		if ci.verdict != "k"+strconv.FormatInt(m.GetPeerIdx(), 10) {
 			if i == 0 {
@@ -1203,6 +1208,9 @@ func main() {
 							ex = &expect{mustReject: true, what: fmt.Sprintf("%s %s:%s re-signed by an outsider", b.name, al.path, al.kind)}
 						}
 					}
+					if ex != nil {
+						ex.just = al.core > 0
+					}
 					lvl := "outer"
 					if al.core == 0 {
 						lvl = "main"
@@ -1247,7 +1255,7 @@ func main() {
 					o := (i + 1) % len(w.Justification)
 					w.Justification[i].Signature = append([]byte{}, w.Justification[o].Signature...)
 					if !bytes.Equal(w.Justification[i].Signature, b.w.Justification[i].Signature) {
-						ex = &expect{mustReject: true, what: "justification carries another justification's signature"}
+						ex = &expect{mustReject: true, just: true, what: "justification carries another justification's signature"}
 					}
 				}
 			case 6: // main claims another member as source, signature unchanged / signed by the old one
